@@ -259,6 +259,27 @@ impl ResponseReader {
     pub fn verif_charset(&self) -> &'static str {
         self.charset.name()
     }
+
+    /// `BufRead::fill_buf` of the body reader the content decoders read from (a copy of what it
+    /// hands out); `None` when a content decoder sits in between.
+    #[doc(hidden)]
+    #[allow(unreachable_patterns)]
+    pub fn verif_fill_buf(&mut self) -> Option<io::Result<Vec<u8>>> {
+        match &mut self.inner {
+            CompressedReader::Plain(r) => Some(io::BufRead::fill_buf(r).map(|b| b.to_vec())),
+            _ => None,
+        }
+    }
+
+    /// `BufRead::consume` of the body reader the content decoders read from.
+    #[doc(hidden)]
+    #[allow(unreachable_patterns)]
+    pub fn verif_consume(&mut self, amt: usize) {
+        match &mut self.inner {
+            CompressedReader::Plain(r) => io::BufRead::consume(r, amt),
+            _ => {}
+        }
+    }
 }
 
 #[cfg(test)]
